@@ -131,15 +131,14 @@ class SymWorld(S.World):
         ok = self.equal(f"hint/logdet-congruence", X, Y)
         if not ok:
             return False
-        key, A, occurring = MX.matrix_key(self, X)
-        rec = self.inv_registry.get(key)
+        ldx = MX.logdet_of(X)               # LD atom (possibly an instance of an abstracted family) -- before the rule exists
         val = MX.logdet_of(Y)
-        if rec is not None:
+        if ldx.expr[0] == "atom" and ldx.expr[1].startswith("LD"):
             vb = val.fresh_copy()
             bm = {}
-            for va, ma in zip(vb.axes, A.axes[:-2]):
+            for va, ma in zip(vb.axes, ldx.axes):
                 bm.update(zip(va.comps, ma.comps))
-            self.ld_rules[rec["ld"]] = (occurring, K.subst(vb.expr, bm))
+            self.ld_rules.setdefault(ldx.expr[1], []).append((ldx.expr[2], K.subst(vb.expr, bm)))
         MX.add_logdet_rule(self, X, val, lemma)
         self.hints_used.append(lemma)
         return True
@@ -192,21 +191,13 @@ class SymWorld(S.World):
                                          time.time() - t0, "kernel-hint"))
         if ok:
             Ef = E.fresh_copy()
-            comps = [c for a in Ef.axes[:-2] for c in a.comps]
-            # batch IVs in the order the Inv atom uses them
-            Xf = X
-            row, col = Ef.axes[-2].comps[0], Ef.axes[-1].comps[0]
-            # map E's batch comps to positions of rec['batch'] by matching X's axes
-            occ_sorts = [v.sort for v in rec["batch"]]
-            # recompute occurring batch comps of X in E's own variables
-            Xe = X.fresh_copy()
+            invf = inv.fresh_copy()
             m = {}
-            for a, b in zip(Xe.axes, Ef.axes):
+            for a, b in zip(invf.axes, Ef.axes):
                 m.update(zip(a.comps, b.comps))
-            p = K.normalize(K.subst(Xe.expr, m), self.ctx)
-            free = K._free_ivs_of_canon(p)
-            occurring = [v for v in comps if any(v is u for u in free)]
-            self.inv_rewrites[name] = (occurring, row, col, Ef.expr)
+            pat = K.subst(invf.expr, m)          # ("atom", name, idx) in E's own index variables
+            assert pat[0] == "atom" and pat[1] == name
+            self.inv_rewrites.setdefault(name, []).append((pat[2], Ef.expr))
             self.hints_used.append(lemma)
         return ok
 
@@ -218,19 +209,37 @@ class SymWorld(S.World):
                 break
             fm = {}
             for n in names:
-                batch, row, col, val = self.inv_rewrites[n]
-                fm[n] = (lambda idx, batch=batch, row=row, col=col, val=val:
-                         K.rename_bound(K.subst(val, dict(zip(list(batch) + [row, col], idx)))))
+                def rw(idx, n=n):
+                    for pat, val in self.inv_rewrites[n]:
+                        mm = {}
+                        if len(pat) == len(idx) and all(K._match_idx(p, y, mm) for p, y in zip(pat, idx)):
+                            return K.rename_bound(K.subst(val, {k: v for k, v in mm.items() if isinstance(k, K.IV)}))
+                    return ("atom", n + "", idx) if False else K.atom("@" + n, *idx)
+                fm[n] = rw
             e = K.rewrite_atoms(e, fm)
+            # atoms that matched no instance keep their name
+            stuck = [a for a in K.atoms_of(e) if a.startswith("@")]
+            if stuck:
+                e = K.rewrite_atoms(e, {a: (lambda idx, a=a: K.atom(a[1:], *idx)) for a in stuck})
+                break
         for _ in range(8):
             names = K.atoms_of(e) & set(self.ld_rules)
             if not names:
                 return e
             fm = {}
             for n in names:
-                batch, val = self.ld_rules[n]
-                fm[n] = (lambda idx, batch=batch, val=val: K.rename_bound(K.subst(val, dict(zip(batch, idx)))))
+                def rw(idx, n=n):
+                    for pat, val in self.ld_rules[n]:
+                        mm = {}
+                        if len(pat) == len(idx) and all(K._match_idx(p, y, mm) for p, y in zip(pat, idx)):
+                            return K.rename_bound(K.subst(val, {k: v for k, v in mm.items() if isinstance(k, K.IV)}))
+                    return K.atom("@" + n, *idx)
+                fm[n] = rw
             e = K.rewrite_atoms(e, fm)
+            stuck = [a for a in K.atoms_of(e) if a.startswith("@")]
+            if stuck:
+                e = K.rewrite_atoms(e, {a: (lambda idx, a=a: K.atom(a[1:], *idx)) for a in stuck})
+                return e
         return e
 
     # ---- comparison
